@@ -8,12 +8,14 @@ from functools import lru_cache
 
 NT_NAMES = ["S", "A", "B", "C", "D", "E", "F"]
 T_CHARS = "abcdefgh"
+U_CHARS = "aλ€b𝄞cd"      # 1, 2, 3, 1, 4, 1, 1 bytes
 
 
 class Gram:
     """prods: list of (lhs_name, [symbol names]); terminals: dict name -> char."""
 
-    def __init__(self, prods, terms, metas=None, prod_meta=None, term_meta=None, rule_meta=None):
+    def __init__(self, prods, terms, metas=None, prod_meta=None, term_meta=None, rule_meta=None, layout=None):
+        self.layout = layout               # None | "ws" | "comments" | "nested"
         self.prods = prods
         self.terms = terms  # name -> recognizer string
         self.prod_meta = prod_meta or {}   # production index -> [meta strings]
@@ -39,11 +41,24 @@ class Gram:
                     alts.append(a)
             rm = (" {" + ", ".join(self.rule_meta[nt]) + "}") if self.rule_meta.get(nt) else ""
             out.append(f"{nt}{rm}: {' | '.join(alts)};")
-        if self.terms:
+        if self.layout == "ws":
+            out.append("Layout: LayoutItem+;\nLayoutItem: WS;")
+        elif self.layout == "comments":
+            out.append("Layout: LayoutItem*;\nLayoutItem: WS | CommentLine;")
+        elif self.layout == "nested":
+            out.append("Layout: LayoutItem*;\nLayoutItem: WS | Comment;\nComment: '/*' Corncs '*/' | CommentLine;\n"
+                       "Corncs: Cornc*;\nCornc: Comment | NotComment | WS;")
+        if self.terms or self.layout:
             out.append("terminals")
             for n, c in self.terms.items():
                 tm = (" {" + ", ".join(self.term_meta[n]) + "}") if self.term_meta.get(n) else ""
                 out.append(f"{n}: '{c}'{tm};")
+            if self.layout:
+                out.append("WS: /\\s+/;")
+            if self.layout in ("comments", "nested"):
+                out.append("CommentLine: /\\/\\/.*/;")
+            if self.layout == "nested":
+                out.append("CommentStart: '/*';\nCommentEnd: '*/';\nNotComment: /((\\*[^\\/])|[^\\s*\\/]|\\/[^\\*])+/;")
         return "\n".join(out) + "\n"
 
     # ---------- analysis --------------------------------------------------------------
@@ -278,10 +293,12 @@ def earley_prefix(g, toks):
 
 # ---------- random generation ----------------------------------------------------------
 
-def random_grammar(rng, max_nts=4, max_alts=3, max_rhs=4, nterm=3, p_empty=0.15, p_nt=0.45):
+def random_grammar(rng, max_nts=4, max_alts=3, max_rhs=4, nterm=3, p_empty=0.15, p_nt=0.45, unicode=False,
+                   layout=None):
     n_nts = rng.randint(1, max_nts)
     nts = NT_NAMES[:n_nts]
     tnames = ["T" + c for c in T_CHARS[:nterm]]
+    chars = U_CHARS if unicode else T_CHARS
     prods = []
     for nt in nts:
         nalts = rng.randint(1, max_alts)
@@ -297,11 +314,11 @@ def random_grammar(rng, max_nts=4, max_alts=3, max_rhs=4, nterm=3, p_empty=0.15,
             seen.add(tuple(rhs))
             prods.append((nt, rhs))
     used = {s for _, rhs in prods for s in rhs if s in tnames}
-    terms = {t: t[1] for t in tnames if t in used}
+    terms = {t: chars[T_CHARS.index(t[1])] for t in tnames if t in used}
     if not terms:
-        terms = {tnames[0]: tnames[0][1]}
+        terms = {tnames[0]: chars[0]}
         prods.append((nts[0], [tnames[0]]))
-    return Gram(prods, terms)
+    return Gram(prods, terms, layout=layout)
 
 
 def annotate(rng, g, p_prod=0.4, p_term=0.2, p_rule=0.1):
@@ -319,7 +336,7 @@ def annotate(rng, g, p_prod=0.4, p_term=0.2, p_rule=0.1):
     for nt in g.nts:
         if rng.random() < p_rule:
             rm[nt] = [rng.choice(["left", "right", "5", "15", "nops"])]
-    return Gram(g.prods, g.terms, prod_meta=pm, term_meta=tm, rule_meta=rm)
+    return Gram(g.prods, g.terms, prod_meta=pm, term_meta=tm, rule_meta=rm, layout=g.layout)
 
 
 def all_strings(alphabet, maxlen):
